@@ -46,11 +46,17 @@ def instances(tier, seed):
     out.append(("core", dict(cat="AbstractArray", arrtype="base", dims="", route="pickle")))
     for d in ("a", "*v", "a b"):
         for order in (0, 1):
-            out.append(("core", dict(cat="Shaped", arrtype="pair", dims=d, route="pickle", order=order)))
+            for route in ("pickle", "cloudpickle"):
+                out.append(("core", dict(cat="Shaped", arrtype="pair", dims=d, route=route, order=order)))
+    # a user category with regular-expression dtypes as the *inner* part of a nested annotation
+    for c in ("Shaped", "user:UserBroad"):
+        for d in ("a", "*v", ""):
+            for r in ROUTES:
+                out.append(("core", dict(cat=c, arrtype="nested-userinner", dims=d, route=r)))
     return out
 
 
-BOUNDS = dict(recipes="%d categories (incl. 2 user categories importable by name) x %d array-type forms (class, Any, nested with narrower / wider inner category, nested with empty outer / inner dim string, union) x %d dim strings; quick: seeded 160 recipes" % (len(CATS), len(ARRTYPES), len(DIMS)),
+BOUNDS = dict(recipes="%d categories (incl. 2 user categories importable by name) x %d array-type forms (class, Any, nested with narrower / wider inner category, nested with empty outer / inner dim string, union; a user pattern category nested inside Shaped / a broader user category; pairs of annotations differing only in effective dtypes serialised in one process by pickle and cloudpickle) x %d dim strings; quick: seeded 160 recipes" % (len(CATS), len(ARRTYPES), len(DIMS)),
               routes=ROUTES, probes="array rank 0..3 with unbounded sizes, dtype from a 14-name menu, two array classes, prior state of 0..1 accepted checks")
 STUBS = c01.STUBS
 ASSUMPTIONS = ["second-process route: comparison in the child is on a concrete probe grid (shapes over sizes 0..3 up to rank 3 x the dtype menu), not symbolic",
@@ -87,6 +93,8 @@ def build(inst):
     if a == "nested-wide":
         inner = {"Float32": jt.Float, "UInt8": jt.Num, "Bool": jt.Shaped, "Key": jt.Shaped}.get(inst["cat"], jt.Shaped)
         return cat[inner[FakeArr, "c"], d]
+    if a == "nested-userinner":
+        return cat[usercats.UserPattern[FakeArr, "c"], d]
     if a == "nested-emptyouter":
         return cat[cat[FakeArr, d], ""]
     if a == "nested-emptyinner":
@@ -189,7 +197,11 @@ def scenario_pair(inst, V):
     d = inst["dims"]
     narrow = jt.Shaped[jt.Float32[FakeArr, "c"], d]
     wide = jt.Shaped[FakeArr, (d + " c").strip()]
-    blobs = [pickle.dumps(narrow), pickle.dumps(wide)]
+    if inst["route"] == "cloudpickle":
+        import cloudpickle
+        blobs = [cloudpickle.dumps(narrow), cloudpickle.dumps(wide)]
+    else:
+        blobs = [pickle.dumps(narrow), pickle.dumps(wide)]
     order = [0, 1] if inst["order"] == 0 else [1, 0]
     loaded = {}
     for i in order:
@@ -206,7 +218,7 @@ def scenario_pair(inst, V):
                 which=("narrow", "wide")[i], order=inst["order"])
         if res[0] in (0, 1):
             V.reach("ACC" if res[0] == 0 else "REJ")
-    V.reach("route-pickle")
+    V.reach("route-" + inst["route"])
     return dict(pair=True)
 
 
